@@ -52,7 +52,7 @@ OkJoin == /\ E.op = "join"
           /\ IF AllSame(E.rs, R(E.sep).par) THEN E.k = "ok" /\ E.par = R(E.sep).par
                                                 /\ E.ret = JoinSeq(R(E.sep).ids, [j \in 1..Len(E.rs) |-> R(E.rs[j]).ids]) /\ Add(E.ret, E.par)
              ELSE E.k = "AudioParameterError" /\ Keep
-OkSilence == E.op = "silence" /\ E.k = "ok" /\ SilenceOK(Len(E.ret), E.dn, E.dd, E.par[1]) /\ Zeros(E.ret) /\ Add(E.ret, E.par)
+OkSilence == E.op = "silence" /\ E.k = "ok" /\ (IF E.exact THEN SilenceExactOK(Len(E.ret), E.dn, E.dd, E.par[1]) ELSE SilenceOK(Len(E.ret), E.dn, E.dd, E.par[1])) /\ Zeros(E.ret) /\ Add(E.ret, E.par)
 OkEq == E.op = "eq" /\ E.v = (R(E.r1).ids = R(E.r2).ids /\ R(E.r1).par = R(E.r2).par) /\ Keep
 OkFrozen == E.op = "assign" /\ E.k = "FrozenInstanceError" /\ Keep
 OkRagged == E.op = "ragged" /\ E.k = "AudioParameterError" /\ Keep
